@@ -37,7 +37,7 @@ let event_of (w : string list) : Conn.event option =
   | ["DeqAck"; g] -> Some (Conn.EDeqAck (n_ g))
   | ["Term"; g; r] -> Some (Conn.ETerm (n_ g, okb r))
   | ["AckCall"; k; g] -> Some (Conn.EAckCall (n_ k, n_ g))
-  | ["AckRet"; k] -> Some (Conn.EAckRet (n_ k))
+  | ["AckRet"; k; g] -> Some (Conn.EAckRet (n_ k, n_ g))
   | ["NextId"; g; id] -> Some (Conn.ENextId (n_ g, n_ id))
   | ["Save"; g; d; p; r] -> Some (Conn.ESave (n_ g, dir_of d, packet_of_s p, okb r))
   | ["Lookup"; g; d; id; "err"] -> Some (Conn.ELookup (n_ g, dir_of d, n_ id, Conn.LErr))
@@ -79,7 +79,7 @@ let run path =
       "c20_responses", ConnSpec.c20_responses;
       "c07_pubrec_after_store", ConnSpec.c07_pubrec_after_store;
       "c07_no_publish_after_release", ConnSpec.c07_no_publish_after_release;
-      "c07_single_release", ConnSpec.c07_single_release;
+      "c07_single_ack", ConnSpec.c07_single_ack;
       "c07_pubrel_answered", ConnSpec.c07_pubrel_answered;
       "c08_store_before_send", ConnSpec.c08_store_before_send; "c08_kept_until_acked", ConnSpec.c08_kept_until_acked;
       "c08_resend", ConnSpec.c08_resend; "c08_no_second_new", ConnSpec.c08_no_second_new;
@@ -91,7 +91,8 @@ let run path =
             if not (f (L.filteri (fun j _ -> j < i) pevs)) then i else first (i + 1) in
         let i = first 1 in
         let line = (try fst (L.nth evs (i - 1)) with _ -> "?") in
-        let extra = if name = "c07_single_release" then (if ConnSpec.sync_acks pevs then " sync_acks=true" else " sync_acks=false") else "" in
+        let extra = if name = "c07_single_ack" || name = "c07_no_publish_after_release"
+          then (if ConnSpec.prompt_acks pevs then " prompt_acks=true" else " prompt_acks=false") else "" in
         incr pf;
         Printf.printf "propfail %s %s seq=%d%s at: %s | %s\n" k name (i - 1) extra line (if S.length !desc > 200 then S.sub !desc 0 200 else !desc)
       end) clauses;
